@@ -11,6 +11,8 @@ import (
 	"sync/atomic"
 	"time"
 
+	"github.com/robfig/soy"
+	"github.com/robfig/soy/parse"
 	"github.com/robfig/soy/soyhtml"
 
 	"verif/c08"
@@ -504,21 +506,28 @@ func (c *child) stress() {
 		var renders, writes int64
 		type seen struct {
 			first map[string]c08.Obs // per operation: what this goroutine got the first time
-			n     int64
+			n, js int64
 			self  *Mismatch // an operation gave this goroutine two different outcomes
 		}
 		var first *Mismatch
-		run := func(kind string, lo, hi, reps int) {
+		// run starts G goroutines; goroutine g performs reps(g) operations chosen
+		// by pick(g, i) from universe.
+		run := func(kind string, universe []Op8, pick func(g, i int) Op8, reps func(g int) int) {
 			recs := make([]*seen, G)
 			for g := 0; g < G; g++ {
 				recs[g] = &seen{first: map[string]c08.Obs{}}
 				wg.Add(1)
 				go func(g int, rec *seen) {
 					defer wg.Done()
-					for i := 0; i < reps && atomic.LoadInt32(&stop) == 0; i++ {
-						o := j.ops[lo+(g+i)%(hi-lo)]
+					n := reps(g)
+					for i := 0; i < n && atomic.LoadInt32(&stop) == 0; i++ {
+						o := pick(g, i)
 						obs := inst.Do(o)
-						rec.n++
+						if o.Op == "render" {
+							rec.n++
+						} else {
+							rec.js++
+						}
 						f, ok := rec.first[o.Key()]
 						if !ok {
 							rec.first[o.Key()] = obs
@@ -531,7 +540,7 @@ func (c *child) stress() {
 							}
 							rec.self = &Mismatch{Kind: kind, Family: "concurrent-bytes", Cfg: j.cfg, Inputs: j.in, Cases: renderCases(j.ops[:j.nR]), Gor: g + 1, Case: Case{o.T + o.F, o.D},
 								Expected: e, Observed: obs,
-								What: fmt.Sprintf("%d goroutines x %d %s of one bundle: goroutine %d, %s: first err=%v %q, later err=%v %q", G, reps, kind, g+1, o.Key(), f.Err, trunc(f.Out, 200), obs.Err, trunc(obs.Out, 200))}
+								What: fmt.Sprintf("%d goroutines (%s) on one bundle: goroutine %d, %s: first err=%v %q, later err=%v %q", G, kind, g+1, o.Key(), f.Err, trunc(f.Out, 200), obs.Err, trunc(obs.Out, 200))}
 							atomic.StoreInt32(&stop, 1)
 							return
 						}
@@ -539,18 +548,15 @@ func (c *child) stress() {
 				}(g, recs[g])
 			}
 			wg.Wait()
-			// the renders alone, each on its own fresh bundle
-			solo, err := c08.FreshOutcomes(j.in, j.ops[lo:hi])
+			// the operations alone, each on its own fresh bundle
+			solo, err := c08.FreshOutcomes(j.in, universe)
 			if err != nil {
 				c.toolErr("stress bundle rejected: %v", err)
 				return
 			}
 			for g, rec := range recs {
-				if kind == "stress" {
-					renders += rec.n
-				} else {
-					writes += rec.n
-				}
+				renders += rec.n
+				writes += rec.js
 				if first != nil {
 					continue
 				}
@@ -558,7 +564,7 @@ func (c *child) stress() {
 					first = rec.self
 					continue
 				}
-				for _, o := range j.ops[lo:hi] {
+				for _, o := range universe {
 					obs, ok := rec.first[o.Key()]
 					s := solo[o.Key()]
 					if ok && (obs.Err != s.Err || obs.Out != s.Out) {
@@ -568,15 +574,33 @@ func (c *child) stress() {
 						}
 						first = &Mismatch{Kind: kind, Family: "concurrent-bytes", Cfg: j.cfg, Inputs: j.in, Cases: renderCases(j.ops[:j.nR]), Gor: g + 1, Case: Case{o.T + o.F, o.D},
 							Expected: e, Observed: obs,
-							What: fmt.Sprintf("%d goroutines x %d %s of one bundle: goroutine %d, %s: alone err=%v %q, concurrently err=%v %q", G, reps, kind, g+1, o.Key(), s.Err, trunc(s.Out, 200), obs.Err, trunc(obs.Out, 200))}
+							What: fmt.Sprintf("%d goroutines (%s) on one bundle: goroutine %d, %s: alone err=%v %q, concurrently err=%v %q", G, kind, g+1, o.Key(), s.Err, trunc(s.Out, 200), obs.Err, trunc(obs.Out, 200))}
 						break
 					}
 				}
 			}
 		}
-		run("stress", 0, j.nR, R)
-		if len(j.ops) > j.nR {
-			run("stress-js", j.nR, len(j.ops), R/10+1)
+		nJS := len(j.ops) - j.nR
+		// phase 1, on cold state: renders, with every fourth goroutine generating
+		// JavaScript from the same registry at the same time
+		run("stress", j.ops,
+			func(g, i int) Op8 {
+				if nJS > 0 && g%4 == 3 {
+					return j.ops[j.nR+(g/4+i)%nJS]
+				}
+				return j.ops[(g+i)%j.nR]
+			},
+			func(g int) int {
+				if nJS > 0 && g%4 == 3 {
+					return R/4 + 1
+				}
+				return R
+			})
+		// phase 2: every goroutine generates JavaScript
+		if nJS > 0 {
+			run("stress-js", j.ops[j.nR:],
+				func(g, i int) Op8 { return j.ops[j.nR+(g+i)%nJS] },
+				func(int) int { return R/10 + 1 })
 		}
 		c.out.Renders += renders
 		c.out.JSWrites += writes
@@ -589,13 +613,13 @@ func (c *child) stress() {
 			all = append(all, Case{o.T, o.D})
 		}
 		c.attribute(&Mismatch{Kind: "stress", Family: "race-detector", Cfg: j.cfg, Inputs: j.in, Cases: all,
-			What: fmt.Sprintf("%d goroutines x %d renders of one bundle, then concurrent soyjs.Write", G, R)}, inst)
+			What: fmt.Sprintf("%d goroutines x %d renders of one bundle with concurrent soyjs.Write, then soyjs.Write from all", G, R)}, inst)
 		if err := restore(); err != nil {
 			c.toolErr("%v", err)
 		}
 	}
 	if c.in.StressBundles > 0 {
-		c.compileStress(r, G, R/10+1)
+		c.compileStress(G, R/10+1)
 		c.attribute(&Mismatch{Kind: "stress-compile", Family: "race-detector", What: "concurrent compilation of independent bundles"}, nil)
 	}
 }
@@ -603,40 +627,96 @@ func (c *child) stress() {
 // Op8 is c08's operation type.
 type Op8 = c08.Op
 
-// compileStress: G goroutines compile (lexer goroutine per parse, registry
-// construction, parse passes) and render independent bundles at once.
-func (c *child) compileStress(r *rand.Rand, G, reps int) {
-	type unit struct {
-		in    *c08.Inputs
-		op    Op8
-		first c08.Obs
-		bad   *c08.Obs
-		n     int64
+// litFile is a source file private to goroutine tag whose string literals
+// use every escape sequence of the language, a long literal, non-ASCII text
+// and a map literal with escapes in key and value; everything else in it is
+// the tag, so that text of another compilation showing up is recognisable.
+func litFile(tag string) core.File {
+	long := ""
+	for i := 0; i < 40; i++ {
+		long += tag + `\n\'` + "0123456789"
 	}
-	units := make([]*unit, G)
+	src := "{namespace lit." + tag + "}\n\n/** */\n{template .t autoescape=\"false\"}\n" +
+		`{'` + tag + `a\nb\tc\'q\'\\ \u00e9\u4e2d\r\b\f end' + '` + tag + `'}|` +
+		`{['k\'` + tag + `': 'v\n` + tag + `']}|` +
+		`{'` + long + `'}|` +
+		`{'日本語 ` + tag + ` é😀'}|{'` + tag + `' + '\u0041\\' + '` + tag + `'}` +
+		"\n{/template}\n"
+	return core.File{Name: "lit_" + tag + ".soy", Text: src}
+}
+
+// compileUnit is what one goroutine of the compile stress does once: compile
+// its own bundle (lexer goroutine per parse, registry, parse passes), render
+// two of its templates, parse a globals file and parse + evaluate an
+// expression, all with escape-laden literals of its own.
+type compileUnit struct {
+	tag   string
+	in    *c08.Inputs
+	op    Op8
+	first string
+	bad   string
+	n     int64
+}
+
+func (u *compileUnit) once() string {
+	var b strings.Builder
+	inst, err := c08.NewInstance(u.in)
+	if err != nil {
+		b.WriteString("compile: " + err.Error())
+	} else {
+		for _, o := range []Op8{u.op, {Op: "render", T: "lit." + u.tag + ".t"}} {
+			obs := inst.Do(o)
+			fmt.Fprintf(&b, "%s err=%v %q\n", o.Key(), obs.Err, obs.Out)
+		}
+	}
+	g, err := soy.ParseGlobals(strings.NewReader("G_A = '" + u.tag + `\n\'x\'` + "'\nG_B = 12\n// c\nG_C = '" + u.tag + `\u0041\\\t` + "'\n"))
+	if err != nil {
+		b.WriteString("globals: " + err.Error())
+	} else {
+		var keys []string
+		for k := range g {
+			keys = append(keys, k)
+		}
+		sort.Strings(keys)
+		for _, k := range keys {
+			fmt.Fprintf(&b, "%s=%q\n", k, g[k].String())
+		}
+	}
+	node, err := parse.Expr("'" + u.tag + `\t` + "' + '" + `\'q\'` + "' + 'é" + `\u00e9` + u.tag + "'")
+	if err != nil {
+		b.WriteString("expr: " + err.Error())
+	} else if v, err := soyhtml.EvalExpr(node); err != nil {
+		b.WriteString("eval: " + err.Error())
+	} else {
+		fmt.Fprintf(&b, "expr=%q\n", v.String())
+	}
+	return b.String()
+}
+
+// compileStress: G goroutines compile and use independent bundles at once;
+// each result is compared with the same work done alone (afterwards).
+func (c *child) compileStress(G, reps int) {
+	r := rand.New(rand.NewSource(c.in.Seed*31 + 5))
+	units := make([]*compileUnit, G)
 	for g := range units {
 		p := (&core.ProgGen{R: r, MaxDepth: 1 + r.Intn(3)}).Gen()
 		in, _, ops, _ := c08.BuildCases(r, p, c08.Configs[0])
-		units[g] = &unit{in: in, op: ops[0]}
+		tag := fmt.Sprintf("g%02d", g)
+		in.Files = append(in.Files, litFile(tag))
+		units[g] = &compileUnit{tag: tag, in: in, op: ops[0]}
 	}
 	var wg sync.WaitGroup
 	for g := 0; g < G; g++ {
 		wg.Add(1)
-		go func(u *unit) {
+		go func(u *compileUnit) {
 			defer wg.Done()
 			for i := 0; i < reps; i++ {
-				inst, err := c08.NewInstance(u.in)
+				res := u.once()
 				u.n++
-				var obs c08.Obs
-				if err != nil {
-					obs = c08.Obs{Err: true, ErrText: "compile: " + err.Error()}
-				} else {
-					obs = inst.Do(u.op)
-				}
 				if i == 0 {
-					u.first = obs
-				} else if obs.Err != u.first.Err || obs.Out != u.first.Out {
-					u.bad = &obs
+					u.first = res
+				} else if res != u.first {
+					u.bad = res
 					return
 				}
 			}
@@ -645,23 +725,21 @@ func (c *child) compileStress(r *rand.Rand, G, reps int) {
 	wg.Wait()
 	for g, u := range units {
 		c.out.Compiles += u.n
-		solo, err := c08.FreshOutcomes(u.in, []Op8{u.op})
-		if err != nil {
-			c.toolErr("compile-stress bundle rejected: %v", err)
-			continue
+		solo := u.once()
+		got := u.first
+		if u.bad != "" {
+			got = u.bad
 		}
-		s := solo[u.op.Key()]
-		obs := u.first
-		if u.bad != nil {
-			obs = *u.bad
-		}
-		if obs.Err != s.Err || obs.Out != s.Out {
+		if got != solo {
 			c.addMismatch(Mismatch{Kind: "stress-compile", Family: "concurrent-bytes", Cfg: c08.Configs[0], Inputs: u.in, Gor: g + 1, Case: Case{u.op.T, u.op.D},
-				Expected: Expect{"ok", s.Out}, Observed: obs,
-				What: fmt.Sprintf("%d goroutines compiling independent bundles: goroutine %d got err=%v %q (%s), alone err=%v %q", G, g+1, obs.Err, trunc(obs.Out, 200), obs.ErrText, s.Err, trunc(s.Out, 200))})
+				Expected: Expect{"ok", solo}, Observed: c08.Obs{Out: got},
+				What: fmt.Sprintf("%d goroutines compiling and using independent bundles (string literals with escapes, globals, expressions): goroutine %d got %q, the same work alone gives %q", G, g+1, trunc(got, 400), trunc(solo, 400))})
 		}
 	}
 	c.out.Distinct = append(c.out.Distinct, "compile-stress")
+	if len(c.out.Samples) < 4 {
+		c.out.Samples = append(c.out.Samples, map[string]interface{}{"compileStress": true, "goroutines": G, "repsEach": reps, "literalFile": units[0].in.Files[len(units[0].in.Files)-1]})
+	}
 }
 
 // replay re-runs one saved mismatch case.
@@ -704,6 +782,10 @@ func (c *child) replay(m *Mismatch) {
 				return
 			}
 		}
+	case "stress-compile":
+		restore()
+		c.compileStress(16, 21)
+		c.attribute(&Mismatch{Kind: "stress-compile", Family: "race-detector", What: "concurrent compilation of independent bundles"}, nil)
 	default:
 		c.in.G, c.in.R = 16, 200
 		c.in.Families = []ModelFamily{{Cfg: m.Cfg, Inputs: m.Inputs, Cases: stressCases(m)}}
